@@ -84,6 +84,8 @@ func (n c10Node) tick() string {
 		return "|delete().tag('g')"
 	case "flatten":
 		return "|flatten().on('p')"
+	case "regroup":
+		return []string{"|groupBy('p')", "|groupBy('p', 'h')", "|groupBy('k')", "|groupBy(*)"}[n.X%4]
 	case "combine":
 		l0 := "lambda: \"p\" == 'p0'"
 		if n.X%2 == 1 {
@@ -140,6 +142,8 @@ func c10Gen(c *Ctx) *c10Scenario {
 				k = "flatten" // creates dynamically named fields: only at the end of a chain
 			} else if i == n-1 && sc.BatchS == 0 && g.Chance(1, 8) {
 				k = "combine" // (on stream edges; prefixes every field and tag: only at the end of a chain)
+			} else if i == n-1 && sc.BatchS == 0 && g.Chance(1, 8) {
+				k = "regroup" // a groupBy node: the points get other dimensions (what later nodes would make of the new groups depends on the writers' interleaving: only at the end of a chain)
 			}
 			nd := c10Node{Kind: k, X: g.Intn(6), Flag: g.Bool()}
 			if k == "evalOnly" || k == "evalKeepList" || k == "evalTag" {
@@ -343,6 +347,22 @@ func (n c10Node) applyTo(in []c10P, endOfBatch bool) []c10P {
 		}
 		if endOfBatch && cur != nil {
 			out = append(out, *cur)
+		}
+	case "regroup":
+		// the point is unchanged but for its dimensions: the named tags in sorted order (a tag the point lacks is still a dimension), or every tag it carries
+		for _, p := range in {
+			q := p.clone()
+			switch n.X % 4 {
+			case 0:
+				q.dims = "p"
+			case 1:
+				q.dims = "h+p"
+			case 2:
+				q.dims = "k"
+			default:
+				q.dims = strings.Join(simrt.Keys(q.tags), "+")
+			}
+			out = append(out, q)
 		}
 	case "combine":
 		// the points of one group with the same (tolerance-rounded) time are combined in pairs, each pair once: x is
@@ -772,10 +792,10 @@ func init() {
 	Register(&Prop{
 		ID:  "C10",
 		Run: runC10,
-		Rule: "case = a stem from().groupBy('g','h') forked into 2-3 sibling branches (each its own goroutines), every branch a chain of 1-3 nodes from where, eval (as + keep() / keep(list) / no keep / tags()), default, delete (fields, tags, and the first group-by dimension), shift, sample, derivative (unit, nonNegative, as), changeDetect (also on a field that some points lack), stateCount, stateDuration (units 500ms/1s/2s/1m), flatten().on(tag) or combine (specific+TRUE, TRUE+TRUE, TRUE+specific expressions, optional tolerance) as a last node, where/eval with the stateful lambda function count(), with generated parameters; in a third of the cases the chains run on batch edges (below window().period(Ns).every(Ns), N 2-4: each batch must be the transformation of the written points of its group and period, with batch time and tags); outputs are compared with their group-by dimensions, over 1-3 groups of 1-8/16 points (int, float and string fields, an optional tag, repeated timestamps), one concurrent writer per group; " +
+		Rule: "case = a stem from().groupBy('g','h') forked into 2-3 sibling branches (each its own goroutines), every branch a chain of 1-3 nodes from where, eval (as + keep() / keep(list) / no keep / tags()), default, delete (fields, tags, and the first group-by dimension), shift, sample, derivative (unit, nonNegative, as), changeDetect (also on a field that some points lack), stateCount, stateDuration (units 500ms/1s/2s/1m), flatten().on(tag) or combine (specific+TRUE, TRUE+TRUE, TRUE+specific expressions, optional tolerance) or a re-grouping groupBy (by a non-dimension tag, a tag some points lack, or *) as a last node, where/eval with the stateful lambda function count(), with generated parameters; in a third of the cases the chains run on batch edges (below window().period(Ns).every(Ns), N 2-4: each batch must be the transformation of the written points of its group and period, with batch time and tags); outputs are compared with their group-by dimensions, over 1-3 groups of 1-8/16 points (int, float and string fields, an optional tag, repeated timestamps), one concurrent writer per group; " +
 			"non-trivial = the reference produces output on some branch; distinct = distinct (scenario, interleaving signature) pairs",
 		Real:        []string{"WhereNode, EvalNode, DefaultNode, DeleteNode, ShiftNode, SampleNode, DerivativeNode, ChangeDetectNode, StateTracking nodes", "edge forwarding (the same message object goes to every child edge), GroupedConsumer, tick/stateful", "FromNode/groupBy, LogNode, TaskMaster, httpd write endpoint"},
 		Stub:        []string{"log sink at the end of every branch: keeps a deep copy taken on arrival and the live message"},
-		Assumptions: []string{"the reference interpreter follows the node documentation in pipeline/*.go", "flatten only as the last node of a chain and compared by time and fields; groupBy re-grouping is not covered (combine, like flatten, only as the last node of a chain on stream edges); on batch edges sample (documented as 'every third data point or batch') and the deletion of a group-by dimension are left out", "whether a sibling's in-place mutation is visible depends on which branch runs first, which is what the simulator varies"},
+		Assumptions: []string{"the reference interpreter follows the node documentation in pipeline/*.go", "flatten only as the last node of a chain and compared by time and fields; combine, a re-grouping groupBy and flatten only as the last node of a chain (the first two on stream edges only); on batch edges sample (documented as 'every third data point or batch') and the deletion of a group-by dimension are left out", "whether a sibling's in-place mutation is visible depends on which branch runs first, which is what the simulator varies"},
 	})
 }
